@@ -7,14 +7,41 @@ use crate::util::*;
 use std::collections::{BTreeMap, HashMap};
 use std::sync::{Arc, Weak};
 use vm_memory::atomic::{GuestMemoryExclusiveGuard, GuestMemoryLoadGuard};
-use vm_memory::{Bytes, GuestAddress, GuestAddressSpace, GuestMemory, GuestMemoryAtomic, GuestMemoryMmap, GuestMemoryRegion};
+use vm_memory::mmap::MmapRegionBuilder;
+use vm_memory::{Bytes, GuestAddress, GuestAddressSpace, GuestMemory, GuestMemoryAtomic, GuestMemoryMmap, GuestMemoryRegion, GuestRegionMmap};
 
 type Map = GuestMemoryMmap<()>;
 
-fn make_map(id: u64) -> Map {
+/// every third map does not own its page (it is wrapped around a page of the harness's own that is never unmapped), so
+/// that another map may later be wrapped around the very same host memory — see `alias_of`
+fn is_raw(id: u64) -> bool {
+    id % 3 == 0
+}
+fn raw_map(id: u64, page: *mut u8) -> Map {
+    let r = unsafe { MmapRegionBuilder::<()>::new(0x1000).with_raw_mmap_pointer(page).with_mmap_prot(libc::PROT_READ | libc::PROT_WRITE).with_mmap_flags(libc::MAP_ANONYMOUS | libc::MAP_PRIVATE).build() }.unwrap();
+    Map::from_regions(vec![GuestRegionMmap::new(r, GuestAddress((id % 2) * 0x1000)).unwrap()]).unwrap()
+}
+/// a map that owns its page (used by the thread stress: raw maps would never give their pages back)
+fn owned_map(id: u64) -> Map {
     let m = Map::from_ranges(&[(GuestAddress((id % 2) * 0x1000), 0x1000)]).unwrap();
     m.write_obj::<u64>(id, GuestAddress((id % 2) * 0x1000)).unwrap();
     m
+}
+fn make_map(id: u64) -> Map {
+    let m = if is_raw(id) {
+        let p = unsafe { libc::mmap(std::ptr::null_mut(), 0x1000, libc::PROT_READ | libc::PROT_WRITE, libc::MAP_ANONYMOUS | libc::MAP_PRIVATE, -1, 0) };
+        raw_map(id, p as *mut u8)
+    } else {
+        Map::from_ranges(&[(GuestAddress((id % 2) * 0x1000), 0x1000)]).unwrap()
+    };
+    m.write_obj::<u64>(id, GuestAddress((id % 2) * 0x1000)).unwrap();
+    m
+}
+/// a different map object with the same layout over the same host memory as `cur` (what a VMM builds when it republishes
+/// the same memory, e.g. with fresh dirty bitmaps): same contents, hence the same tag
+fn alias_of(cur: &Map, id: u64) -> Map {
+    let host = cur.get_host_address(GuestAddress((id % 2) * 0x1000)).unwrap();
+    raw_map(id, host)
 }
 /// the id a holder sees: layout and contents must tell the same story (never a mixture)
 fn id_of(m: &Map) -> Result<u64, String> {
@@ -49,7 +76,8 @@ pub struct AmemWorld {
     handles: Vec<&'static GuestMemoryAtomic<Map>>,
     owners: Vec<(u64, Owner)>,
     lock: Option<(u64, GuestMemoryExclusiveGuard<'static, Map>)>,
-    weak: BTreeMap<u64, Weak<Map>>,
+    /// every map object published under an id (an id has several once it was republished as an alias)
+    weak: BTreeMap<u64, Vec<Weak<Map>>>,
     probes: Vec<std::thread::JoinHandle<()>>,
     /// the waiting updater: (go flag, thread returning (its map became visible after its replace, H4 log of its replace))
     waiter: Option<(Arc<std::sync::atomic::AtomicBool>, std::thread::JoinHandle<(bool, Vec<bool>)>)>,
@@ -83,7 +111,7 @@ impl AmemWorld {
                 }
             }
         }
-        let freed: Vec<String> = self.weak.iter().filter(|(_, w)| w.upgrade().is_none()).map(|(k, _)| k.to_string()).collect();
+        let freed: Vec<String> = self.weak.iter().filter(|(_, ws)| ws.iter().all(|w| w.upgrade().is_none())).map(|(k, _)| k.to_string()).collect();
         format!("ok ret={} cur={} locked={} owners={} freed={}", ret.map(|x| x.to_string()).unwrap_or("-".into()), cur, self.lock.is_some(), owners.join(","), freed.join(","))
     }
 
@@ -102,7 +130,7 @@ impl AmemWorld {
                 self.weak.clear();
                 let id = kv.n("m");
                 let a = Arc::new(make_map(id));
-                self.weak.insert(id, Arc::downgrade(&a));
+                self.weak.entry(id).or_default().push(Arc::downgrade(&a));
                 // leaked per case (a few hundred bytes): the exclusive guard borrows it
                 let gm: &'static GuestMemoryAtomic<Map> = Box::leak(Box::new(GuestMemoryAtomic::from(a)));
                 self.gm = Some(gm);
@@ -172,7 +200,7 @@ impl AmemWorld {
                     let new = kv.n("new");
                     if new != 0 {
                         let a = self.gm.unwrap().memory().into_inner();
-                        self.weak.insert(new, Arc::downgrade(&a));
+                        self.weak.entry(new).or_default().push(Arc::downgrade(&a));
                         if !visible || id_of(&a) != Ok(new) {
                             rec.fail("C11", "replace-by-updater-that-waited-not-visible", line);
                         }
@@ -209,7 +237,7 @@ impl AmemWorld {
                     }
                     self.join_probes();
                     let a = self.gm.unwrap().memory().into_inner();
-                    self.weak.insert(id, Arc::downgrade(&a));
+                    self.weak.entry(id).or_default().push(Arc::downgrade(&a));
                     // C11: once a replacement has completed every snapshot taken afterwards shows the new map
                     if id_of(&a) != Ok(id) {
                         rec.fail("C11", "replace-not-visible", line);
@@ -218,7 +246,27 @@ impl AmemWorld {
             }
             "t.unlock" => {
                 if matches!(&self.lock, Some((t, _)) if *t == kv.n("t")) {
-                    self.lock = None;
+                    let cur = self.gm.unwrap().memory().into_inner();
+                    let cur_id = id_of(&cur).unwrap_or(u64::MAX);
+                    if kv.n("alias") == 1 && is_raw(cur_id) {
+                        // not a plain unlock: the holder republishes the same memory as a NEW map object (same layout, same
+                        // host memory, hence the same tag: nothing the model distinguishes changes).  The cell must hold the
+                        // new object afterwards — a replacement is a replacement even if the two maps look alike.
+                        let (_, g) = self.lock.take().unwrap();
+                        let _ = vm_memory::verif_hooks::replace_log_take();
+                        g.replace(alias_of(&cur, cur_id));
+                        let log = vm_memory::verif_hooks::replace_log_take();
+                        let now = self.gm.unwrap().memory().into_inner();
+                        if Arc::ptr_eq(&cur, &now) {
+                            rec.fail("C11", "replace/cell-still-holds-the-old-map-object", line);
+                        }
+                        if log != vec![true] {
+                            rec.fail("C11", "replace/new-map-stored-without-holding-the-update-lock", &format!("{} h4={:?}", line, log));
+                        }
+                        self.weak.entry(cur_id).or_default().push(Arc::downgrade(&now));
+                    } else {
+                        self.lock = None;
+                    }
                 }
                 self.join_probes();
             }
@@ -286,7 +334,7 @@ pub fn run(rec: &mut Rec, rng: &mut Rng, n_ops: usize, stress_secs: u64) {
             } else if r < 92 {
                 match &w.lock {
                     Some((t, _)) => {
-                        if rng.chance(4, 5) { let id = next_map; next_map += 1 + rng.below(2); format!("t.replace t={} new={}", t, id) } else { format!("t.unlock t={}", t) }
+                        if rng.chance(4, 5) { let id = next_map; next_map += 1 + rng.below(2); format!("t.replace t={} new={}", t, id) } else { format!("t.unlock t={} alias={}", t, rng.chance(2, 3) as u8) }
                     }
                     None => format!("t.replace t={} new={}", rng.below(3), next_map), // disabled: nobody holds the lock
                 }
@@ -317,7 +365,7 @@ pub fn run(rec: &mut Rec, rng: &mut Rng, n_ops: usize, stress_secs: u64) {
 /// non-decreasing ids; at the end the id equals the number of replacements (none lost).
 fn stress(rec: &mut Rec, secs: u64) {
     use std::sync::atomic::{AtomicBool, AtomicU64, Ordering};
-    let gm = GuestMemoryAtomic::new(make_map(1));
+    let gm = GuestMemoryAtomic::new(owned_map(1));
     let stop = Arc::new(AtomicBool::new(false));
     let replaces = Arc::new(AtomicU64::new(0));
     let bad = Arc::new(std::sync::Mutex::new(Vec::<String>::new()));
@@ -328,7 +376,7 @@ fn stress(rec: &mut Rec, secs: u64) {
             while !stop.load(Ordering::Relaxed) {
                 let g = gm.lock().unwrap();
                 let cur = id_of(&gm.memory()).unwrap();
-                g.replace(make_map(cur + 1));
+                g.replace(owned_map(cur + 1));
                 replaces.fetch_add(1, Ordering::SeqCst);
             }
         }));
